@@ -106,7 +106,7 @@ fn main() {
             let sc: e2::E2Scenario = serde_json::from_value(v).unwrap();
             sandbox::reset_tree(&sc.tree_bytes());
             let st = std::process::Command::new("bash").arg("-c").arg(&args[3]).current_dir(&sc.project.cwd)
-                .env("NVSIM_ARGS", sc.project.config_args().join(" ")).status().unwrap();
+                .env("NVSIM_ARGS", sc.project.config_args().join(" ")).env("NVSIM_FLAGS", sc.project.flag_args().join(" ")).status().unwrap();
             std::process::exit(st.code().unwrap_or(1));
         }
         Some("exec") => {
